@@ -86,7 +86,7 @@ def table(r):
     print(f'Round {r}: {own} of {len(sel)} changes are reported by the check of the property they were written against, {anyc} of {len(sel)} by at least one check (final checks).')
     print()
 
-for r in (1, 2, 3, 4, 5, 6, 7, 8):
+for r in (1, 2, 3, 4, 5, 6, 7, 8, 9):
     print(f'#### Round {r}\n')
     table(r)
 
@@ -103,7 +103,7 @@ print(f'First run of the checks as they stood when round 3 was delivered: {own} 
 missed = sorted(s for s in fr if not fr[s]['fired'])
 print(f'Not reported by any check on the first run: {", ".join(missed)}.')
 
-for rn in (4, 5, 6, 7, 8):
+for rn in (4, 5, 6, 7, 8, 9):
     fN = f'/verif/seeded/round{rn}_first_run.json'
     if not os.path.exists(fN):
         continue
